@@ -7,11 +7,16 @@ pub mod c04;
 pub mod c05;
 pub mod c06;
 pub mod c09;
+pub mod c10;
+pub mod c11;
+pub mod c12;
+pub mod c13;
 pub mod c14;
 pub mod c15;
 pub mod c16;
 pub mod c17;
 pub mod c18;
+pub mod c19;
 pub mod c20;
 pub mod c30;
 pub mod c31;
@@ -21,12 +26,14 @@ pub mod c35;
 pub mod c36;
 pub mod c37;
 pub mod c38;
+pub mod c39;
 pub mod c40;
 pub mod c41;
 pub mod c42;
 pub mod c43;
 pub mod c44;
 pub mod c45;
+pub mod c46;
 
 pub type RunFn = fn(&mut Report);
 
@@ -38,11 +45,16 @@ pub const REGISTRY: &[(&str, RunFn)] = &[
     ("C05", c05::run),
     ("C06", c06::run),
     ("C09", c09::run),
+    ("C10", c10::run),
+    ("C11", c11::run),
+    ("C12", c12::run),
+    ("C13", c13::run),
     ("C14", c14::run),
     ("C15", c15::run),
     ("C16", c16::run),
     ("C17", c17::run),
     ("C18", c18::run),
+    ("C19", c19::run),
     ("C20", c20::run),
     ("C30", c30::run),
     ("C31", c31::run),
@@ -52,12 +64,14 @@ pub const REGISTRY: &[(&str, RunFn)] = &[
     ("C36", c36::run),
     ("C37", c37::run),
     ("C38", c38::run),
+    ("C39", c39::run),
     ("C40", c40::run),
     ("C41", c41::run),
     ("C42", c42::run),
     ("C43", c43::run),
     ("C44", c44::run),
     ("C45", c45::run),
+    ("C46", c46::run),
 ];
 
 pub fn lookup(id: &str) -> Option<(&'static str, RunFn)> {
